@@ -75,6 +75,10 @@ func c1Bits(w *replication.VHWriter, v, n int) {
 
 var c1FreeLen = false
 
+// c1StrLen > 0: VARCHAR / CHAR payloads have exactly this length (axis 4: the rows event is longer than
+// the table map that follows it, so a recycled rows-event buffer would be refilled)
+var c1StrLen = 0
+
 // c1WriteCell appends the encoding of one present, non-NULL cell and returns the expected text.
 func c1WriteCell(w *replication.VHWriter, c c1Col) []byte {
 	switch c.typ {
@@ -89,6 +93,9 @@ func c1WriteCell(w *replication.VHWriter, c c1Col) []byte {
 		n := 1
 		if c1FreeLen {
 			n = vhChoose(3)
+		}
+		if c1StrLen > 0 {
+			n = c1StrLen
 		}
 		p := vhBytes(n)
 		max := int(c.meta)
@@ -183,10 +190,16 @@ func c1Image(w *replication.VHWriter, cols []c1Col, pres int, free bool) []c1Cel
 // axis 0: cell axis (one change, free column tuple / presence / NULL pattern),
 // axis 1: structure axis (1-2 transactions x 1-2 statements x 2 tables x 1-2 rows events),
 // axis 3: the cell axis driven through Streamer.Stream and the scripted master (library-priority schedule),
+// axis 4: two autocommitted row changes around three DDL statements through Streamer.Stream; the handler keeps
+//         every transaction and reads all of them again after the stream has ended (C08),
 // axis 2: wide axis (one change on the 10-column table, partial images from c1WidePres, NULL patterns).
 func VH_C01_History(cfg, axis int) {
 	crcOn, v2, w6, gtid := cfg&1 != 0, cfg&2 != 0, cfg&4 != 0, cfg&8 != 0
 	c1FreeLen = axis == 0 || axis == 2 || axis == 3
+	c1StrLen = 0
+	if axis == 4 {
+		c1StrLen = 14
+	}
 	width := 4
 	if w6 {
 		width = 6
@@ -251,6 +264,9 @@ func VH_C01_History(cfg, axis int) {
 	if axis == 1 {
 		ntx = 1 + vhChoose(2)
 	}
+	if axis == 4 {
+		ntx = 2 // two autocommitted row changes with three DDL statements between them
+	}
 	boundary := int64(base) // start label: the initial position, then the previous end label
 	for t := 0; t < ntx; t++ {
 		tx := c1Tx{now: boundary}
@@ -261,8 +277,13 @@ func VH_C01_History(cfg, axis int) {
 			g.U64(uint64(t + 1))
 			emit(33, vhU32(), g.Bytes(), true)
 		}
-		query("BEGIN", vhU32())
-		txKind := []int{kWrite, kUpdate, kDelete}[vhChoose(3)]
+		txKind := kWrite
+		if axis != 4 {
+			query("BEGIN", vhU32())
+			txKind = []int{kWrite, kUpdate, kDelete}[vhChoose(3)]
+		}
+		autoNext := uint32(0)
+		autoTS := uint32(0)
 		nst := 1
 		if axis == 1 {
 			nst = 1 + vhChoose(2)
@@ -270,6 +291,8 @@ func VH_C01_History(cfg, axis int) {
 		for st := 0; st < nst; st++ {
 			ti := 0
 			switch axis {
+			case 4:
+				ti = 0
 			case 0, 3:
 				ti = vhChoose(3)
 			case 2:
@@ -369,9 +392,29 @@ func VH_C01_History(cfg, axis int) {
 					}
 					ch.rows = append(ch.rows, row)
 				}
-				emit(rowsType(kind), ch.ts, r.Bytes(), true)
+				autoNext = emit(rowsType(kind), ch.ts, r.Bytes(), true)
+				autoTS = ch.ts
 				tx.changes = append(tx.changes, ch)
 			}
+		}
+		if axis == 4 {
+			// an autocommitted row change: the rows event itself is the commit point
+			tx.commitTS, tx.next = autoTS, int64(autoNext)
+			boundary = tx.next
+			txs = append(txs, tx)
+			if t == 1 {
+				// (the second row change follows the first at once: a reader that recycles event buffers
+				// gets the chance to refill the first one; then statements of different lengths)
+				for d := 0; d < 3; d++ {
+					ddl := c1Tx{now: boundary, commitTS: vhU32()}
+					sql := []string{"create table y0 (a int, b varchar(20))", "create table y (a int)", "create table y2 (a int)"}[d]
+					ddl.next = int64(query(sql, ddl.commitTS))
+					ddl.changes = []c1Change{{kind: kQuery, sql: sql, ts: ddl.commitTS}}
+					boundary = ddl.next
+					txs = append(txs, ddl)
+				}
+			}
+			continue
 		}
 		tx.commitTS = vhU32()
 		tail := 0
@@ -424,10 +467,19 @@ func VH_C01_History(cfg, axis int) {
 	// ---- run the real code ----
 	m := &c1Mapper{}
 	k := 0
+	var kept []*Transaction
+	var check func(t *Transaction, want c1Tx)
 	handler := func(t *Transaction) error {
 		vhAssert(k < len(txs), "nothing but the committed transactions is delivered")
 		want := txs[k]
 		k++
+		check(t, want)
+		if axis == 4 {
+			kept = append(kept, t) // the handler keeps what it was given and reads it again after the stream
+		}
+		return nil
+	}
+	check = func(t *Transaction, want c1Tx) {
 		wf := "bin.000007"
 		if want.file != "" {
 			wf = want.file
@@ -465,9 +517,8 @@ func VH_C01_History(cfg, axis int) {
 				}
 			}
 		}
-		return nil
 	}
-	if axis == 3 {
+	if axis == 3 || axis == 4 {
 		// through the public API: Streamer.Stream, newSlaveConnection, the reader goroutine, the
 		// (model / natively: real) driver and a master that serves the packets and then ends the dump
 		sc := &vScript{end: endEOF}
@@ -484,6 +535,10 @@ func VH_C01_History(cfg, axis int) {
 		vhAssert(k == len(txs), "exactly one transaction per committed transaction")
 		vhAssert(s.binlogPosition().Offset == boundary, "the stored position is the end label of the last transaction")
 		vhQuiesce()
+		for i, t := range kept {
+			// read again after all the later stream activity: nothing may have changed
+			check(t, txs[i])
+		}
 		vhCover("history-stream")
 		return
 	}
